@@ -9,6 +9,8 @@ git -C /repo worktree add -f --detach "$WT" HEAD >/dev/null 2>&1 || { echo "work
 trap 'git -C /repo worktree remove --force "$WT" >/dev/null 2>&1' EXIT
 cp "$D/$DEMO" "$WT/$TGT/$DEMO"
 cd "$WT"
+TESTS=$(grep -oE '^func (Test[A-Za-z0-9_]+)' "$D/$DEMO" | awk '{print $2}' | paste -sd'|')
+set -- "$@" -run "^($TESTS)\$"
 if (cd "$TGT" && timeout 300 go test -vet=off -count=1 "$@" . >"$D/verify_clean.txt" 2>&1); then echo "clean: demo package PASS"; else echo "clean: demo package FAIL (unexpected)"; tail -5 "$D/verify_clean.txt"; exit 1; fi
 git apply "$D/patch.diff" || { echo "patch does not apply to HEAD"; exit 3; }
 go build ./... || { echo "mutant does not build"; exit 1; }
